@@ -338,3 +338,30 @@ Theorem mount_under_default_error_handler_refuted :
   mounted_trace mount Chi false None o = [EMw 0]
   /\ mounted_trace mount_under_default_error_handler Chi false None o = [EHandler].
 Proof. vm_compute. split; reflexivity. Qed.
+
+(** * The counting loop visits the slice from its last element to its first *)
+Lemma countdown_app : forall (a : slice) m, countdown (length a) (a ++ [m]) = countdown (length a) a.
+Proof.
+  intros a m. remember (length a) as k eqn:Hk. assert (Hle : k <= length a) by (subst; auto). clear Hk.
+  induction k as [|j IH]; [reflexivity|]. cbn [countdown].
+  rewrite nth_error_app1 by exact Hle. rewrite IH by (apply Nat.lt_le_incl; exact Hle). reflexivity.
+Qed.
+
+Theorem countdown_is_rev : forall s : slice, countdown (length s) s = rev s.
+Proof.
+  induction s as [|m s IH] using rev_ind; [reflexivity|].
+  rewrite app_length. cbn [length]. rewrite Nat.add_1_r. cbn [countdown].
+  rewrite nth_error_app2 by auto. rewrite Nat.sub_diag. cbn [nth_error].
+  rewrite countdown_app. rewrite IH. rewrite rev_app_distr. reflexivity.
+Qed.
+
+(** so the first-to-last chain of the templates is the model's: wrapping in the order the loop visits *)
+Theorem first_to_last_loop (ms : list mw) inner :
+  wrap_loop EMw (countdown (length (indexed ms)) (indexed ms)) inner = nethttp_chain true ms inner.
+Proof. rewrite countdown_is_rev. reflexivity. Qed.
+
+(** the loop that stops at i > 0 never wraps the first middleware: with one middleware nothing runs before the handler *)
+Theorem countdown_stopping_early_refuted :
+  wrap_loop EMw (countdown 1 (indexed [Stop])) [EHandler] = [EMw 0]
+  /\ wrap_loop EMw (countdown_stopping_early 1 (indexed [Stop])) [EHandler] = [EHandler].
+Proof. vm_compute. split; reflexivity. Qed.
